@@ -111,7 +111,7 @@ type Task struct {
 	daemon    bool  // started by a go statement of the code under test: the run does not wait for it
 	exiting   bool  // being torn down with runtime.Goexit at the end of the run
 	started   bool
-	gone      bool // its goroutine has handed the baton on for the last time
+	gone      bool   // its goroutine has handed the baton on for the last time
 	goid      uint64 // simulated goroutine id, assigned when somebody first asks for it
 }
 
@@ -226,6 +226,26 @@ func (s *Sim) Check() bool {
 // initialisation, re-executed by VsimReset): they become daemons of the next run.
 var pendingInit []func()
 
+// pendingTimers holds timers the code under test armed outside a run (a ticker made by a
+// package initialiser): they start counting when the next run starts.
+var pendingTimers []pendingTimer
+
+type pendingTimer struct {
+	d    int64
+	fire func(s *Sim)
+}
+
+// AddTimerAnywhere arms a timer in the current run or, outside a run, in the next one.
+func AddTimerAnywhere(d int64, fire func(s *Sim)) {
+	if s := Cur; s != nil {
+		if !s.aborted {
+			s.AddTimer(d, func() { fire(s) })
+		}
+		return
+	}
+	pendingTimers = append(pendingTimers, pendingTimer{d, fire})
+}
+
 // Go is the stand-in for a go statement of the code under test.
 func Go(f func()) {
 	s := Cur
@@ -302,7 +322,7 @@ func Stack(buf []byte, all bool) int {
 
 // ClearPending forgets goroutines started outside a run so far (the harness calls it before
 // re-initialising the packages, so that exactly one initialisation's goroutines join a run).
-func ClearPending() { pendingInit = nil }
+func ClearPending() { pendingInit, pendingTimers = nil, nil }
 
 // Gosched is the stand-in for runtime.Gosched: a polite yield.
 func Gosched() {
@@ -492,6 +512,11 @@ func (s *Sim) Run(n int, arrive []int64, body func(task int)) {
 		s.spawn(f, nil)
 	}
 	pendingInit = nil
+	for _, pt := range pendingTimers {
+		pt := pt
+		s.AddTimer(pt.d, func() { pt.fire(s) })
+	}
+	pendingTimers = nil
 	first := s.pick(nil)
 	if first == nil {
 		// nobody can arrive: treat as arriving now
